@@ -624,6 +624,28 @@ class IDManager:
                 self.conn.execute("BEGIN IMMEDIATE")
                 id = None
                 with closing(self.conn.cursor()) as cursor:
+                    # Another process may have assigned an id to this description
+                    # since the lookup above, so repeat the lookup inside this
+                    # transaction.
+                    cursor.execute(
+                        f"""SELECT id FROM {namespace}
+                            WHERE description=? AND (id & ?) BETWEEN ? AND ?
+                        """,
+                        (
+                            description,
+                            id_space.subspace_byte_mask(),
+                            begin,
+                            end - 1,
+                        ),
+                    )
+                    row = cursor.fetchone()
+                    if row:
+                        id = row[0]
+                        cursor.execute(
+                            f"UPDATE {namespace} SET atime=? WHERE id=?",
+                            (atime.isoformat(), id),
+                        )
+                        return id
                     # Run rejection sampling.
                     for j in range(8):
                         id = id_space.gen_random_id(subspace)
